@@ -37,7 +37,7 @@ var noopPrefixes = []string{
 }
 
 func findExternal(fn *ssa.Function) externalFn {
-	name := fn.String()
+	name := fnName(fn)
 	if e := externals[name]; e != nil {
 		return e
 	}
